@@ -1030,6 +1030,17 @@ def m_as_ptr(I, st, args, c, dest, target, span):
     return VOpaque("nodes-ptr-start")
 
 
+@model("core::ptr::const_ptr::<impl *const T>::wrapping_add", "core::ptr::const_ptr::<impl *const T>::add")
+def m_ptr_add(I, st, args, c, dest, target, span):
+    p, n = I.force(st, args[0]), I.force(st, args[1])
+    if isinstance(p, VOpaque) and p.tag == "nodes-ptr-start" and isinstance(n, VInt):
+        if n.t == st.len:
+            return VOpaque("nodes-ptr-end")           # start + len elements: the one-past-the-end pointer of the node vector (as_ptr_range().end)
+        if n.t.sym is None and n.t.c == 0:
+            return p
+    raise Undecided("pointer arithmetic %r + %r" % (p, n))
+
+
 @model("core::ops::range::Range::<Idx>::contains")
 def m_range_contains(I, st, args, c, dest, target, span):
     r = deref(I, st, args[0])
